@@ -496,7 +496,18 @@ func (g *gen) stmt(s *sb, o genOpts, d int, inLoop bool) {
 		}
 		s.ind += 2
 		g.stmts(s, o, d-1, false, g.r.Range(1, 3))
-		if g.r.Chance(70) {
+		if g.r.Chance(50) {
+			// "if (a) return b; return c;" shapes (merged into one return by mangleStmts)
+			c := g.cond()
+			if g.r.Chance(40) {
+				c = "!(" + c + ")"
+			}
+			s.line("if (%s) return %s;", c, g.exprTop(1))
+			if g.r.Chance(30) {
+				s.line("if (%s) return %s;", g.cond(), g.exprTop(1))
+			}
+			s.line("return %s;", g.exprTop(1))
+		} else if g.r.Chance(70) {
 			s.line("return %s;", g.exprTop(2))
 		}
 		s.ind -= 2
